@@ -223,7 +223,12 @@ def replay(data):
     c = unq(data["cex"]) or {}
     job = data["job"]
     if c.get("kind") == "exc":
-        return True, c["exc"]
+        # an exception seen under the model is only a finding if the real library raises too
+        try:
+            ok, msg = replay(dict(data, cex=dict(kind="cadence", calls=[])))
+            return ok, "no exception with the real Orbax; " + msg
+        except Exception as ex:
+            return True, f"real run raised {type(ex).__name__}: {ex}"
     if job["kind"] == "f0":
         base = tempfile.mkdtemp(prefix="mdpv-f0-")
         try:
